@@ -28,7 +28,7 @@ POOL = [
     ("double", "double", "unwrap", "double", "double", False, "1.5"),
     ("size_t", "numeric", "unwrap", "size_t", "size_t", False, "0"),
     ("bool", "logical", "unwrap", "bool", "bool", False, "true"),
-    ("string", "char", "unwrap", "string", "string", False, '"a, b"'),
+    ("string", "char", "unwrap", "string", "string", False, '"a,  b"'),
     ("Vector", "double", "unwrap", "Vector", "Vector", False, "Vector()"),
     ("Matrix", "double", "unwrap", "Matrix", "Matrix", False, "Matrix()"),
     ("ns::Other", "ns.Other", "sp", "ns::Other", "std::shared_ptr<ns::Other>", True, "ns::Other()"),
@@ -294,6 +294,60 @@ def c06_expand(n: int, mask: int) -> bool:
     return ok
 
 
+def check_function_overloads(r1, r2, r3):
+    """three overloads of one free function with their own return shapes; arities 0 / 3 / 2,1"""
+    sigs = [(r1, "", [0]), (r2, "double x, double y, double z", [3]), (r3, "string s, int v = 1", [2, 1])]
+    text = ("namespace ns { class Other { Other(); }; }\nnamespace top { enum Color { Red, Green }; " +
+            " ".join("%s doIt(%s);" % (RETS[r][0], a) for r, a, _ in sigs) + " }\n")
+    files, cpp, _w = pipe.matlab(text)
+    m = files.get("+top/doIt.m")
+    if m is None:
+        return _fail(text=text, problems=["no +top/doIt.m", sorted(files)])
+    routines = dict(readers.mex_routines(cpp))
+    cases = dict(readers.mex_cases(cpp))
+    guards = re.findall(r"(?:if|elseif) length\(varargin\) == (\d+)[^\n]*\n\s*((?:\[ varargout\{1\} varargout\{2\} \] = |varargout\{1\} = )?)mod_wrapper\((\d+)", m)
+    problems = []
+    want = {}
+    for r, _a, ars in sigs:
+        for a in ars:
+            want[a] = r
+    if sorted(int(g[0]) for g in guards) != sorted(want):
+        problems.append("arities offered %r, declared %r" % ([g[0] for g in guards], sorted(want)))
+    for cnt, assign, wid in guards:
+        r = want.get(int(cnt))
+        if r is None:
+            continue
+        nout = RETS[r][1]
+        exp_assign = {0: "", 1: "varargout{1} = ", 2: "[ varargout{1} varargout{2} ] = "}[nout]
+        if assign != exp_assign:
+            problems.append("arity %s (returns %s): MATLAB assigns %r, its own return shape needs %r" % (cnt, RETS[r][0], assign, exp_assign))
+        body = routines.get(cases.get(int(wid)), "")
+        outs = re.findall(r"out\[(\d)\] = ", body)
+        if len(outs) != nout:
+            problems.append("arity %s (returns %s): routine produces %d outputs" % (cnt, RETS[r][0], len(outs)))
+    if problems:
+        return _fail(text=text, problems=problems)
+    return True
+
+
+def c06_function_overloads(r1: int, r2: int, r3: int) -> bool:
+    """
+    Overloads of one free function with DIFFERENT return shapes (void / value / object / pair): each arity's
+    MATLAB-side output assignment and C++ routine follow that overload's own declared return type.
+    pre: 0 <= r1 < NR and 0 <= r2 < NR and 0 <= r3 < NR
+    pre: not (kf_open("C06-function-enum") and (r1 == 9 or r2 == 9 or r3 == 9))
+    post: _
+    """
+    r1, r2 = pick(r1, 0, NR), pick(r2, 0, NR)
+    r3 = pick(r3, 0, NR) if THOROUGH else (r1 * 3 + r2 + 1) % NR
+    if kf_open("C06-function-enum") and r3 == 9:
+        r3 = 0
+    with concrete():
+        ok = check_function_overloads(r1, r2, r3)
+    reached({"returns": [RETS[r][0] for r in (r1, r2, r3)]} if (not ok or (r1 == 7 and r2 == 0)) else None)
+    return ok
+
+
 def c06_kf_function_enum(which: int) -> bool:
     """
     Witness replay for known finding C06-function-enum (free function taking / returning an enum).
@@ -312,13 +366,15 @@ def conds(tier):
     t = (lambda x, y: x) if q else (lambda x, y: y)
     M = "harness.c06"
     sb = "shape-bounded"
-    tb = "%d parameter types (value/reference/shared/raw pointer/enum/Vector/Matrix/string) x %s" % (NP, "all second types" if not q else "2 derived type rows")
+    tb = "%d first-parameter kinds (value / reference / shared / raw pointer / enum / Vector / Matrix / string; further parameters derived)%s" % (NP, " x 2 type rows x all return shapes" if not q else "; return shape derived")
     return [
         xh.Cond(M, "c06_expand", t(200, 900), examples=["n=3, mask=6", "n=3, mask=2", "n=0, mask=0"], bounds="0-5 parameters, all 32 default masks (legal and illegal)"),
         xh.Cond(M, "c06_ctor", t(420, 3000), path_timeout=60, kind=sb, examples=["n=2, k=1, t0=7, t1=0", "n=4, k=4, t0=0, t1=1"], bounds="constructors: 0-4 parameters, every default count, " + tb),
-        xh.Cond(M, "c06_method", t(420, 3000), path_timeout=60, kind=sb, examples=["n=2, k=2, t0=8, t1=0, ret=5", "n=3, k=1, t0=12, t1=1, ret=7"], bounds="methods: 0-3 parameters, " + tb + ", return shapes"),
+        xh.Cond(M, "c06_method", t(420, 3000), path_timeout=60, kind=sb, examples=["n=2, k=2, t0=8, t1=0, ret=5", "n=3, k=1, t0=12, t1=1, ret=7"], bounds="methods: 0-3 parameters, every default count, " + tb),
         xh.Cond(M, "c06_static", t(420, 3000), path_timeout=60, kind=sb, examples=["n=1, k=1, t0=10, t1=0, ret=6"], bounds="static methods: as methods"),
         xh.Cond(M, "c06_function", t(420, 3000), path_timeout=60, kind=sb, examples=["n=2, k=1, t0=11, t1=0, ret=8"], bounds="free functions: as methods"),
+        xh.Cond(M, "c06_function_overloads", t(300, 1800), path_timeout=60, kind=sb, examples=["r1=0, r2=7, r3=1", "r1=7, r2=0, r3=5"],
+                bounds="3 overloads x %d return shapes each%s" % (NR, "" if not q else " (third derived)")),
         xh.Cond(M, "c06_kf_function_enum", 60, path_timeout=60, kind=sb, bounds="witness of a listed known finding", needs_confirm=False),
         xh.Cond(M, "c06_returns", t(200, 900), path_timeout=60, kind=sb, examples=["role=1, ret=7, n=1"], bounds="3 roles x %d return shapes x 0-1 parameters" % NR),
     ]
